@@ -558,7 +558,15 @@ impl<'a> Parser<'a> {
         self.declare_variable();
 
         self.emit_constant_op(OpCode::DeclareClass, name_constant);
-        self.define_variable(name_constant);
+        // A local class name takes its slot now and holds a placeholder until the class is complete. A
+        // global one is only bound once the class is complete, so that a declaration that fails (for
+        // example on its superclass) does not leave the name bound to the placeholder.
+        let is_global = self.compiler().scope_depth == 0;
+        if is_global {
+            self.emit_byte(OpCode::Pop as u8);
+        } else {
+            self.define_variable(name_constant);
+        }
 
         self.class_compilers.push(ClassCompiler {
             has_superclass: false,
@@ -577,14 +585,22 @@ impl<'a> Parser<'a> {
             }
             self.define_variable(0);
 
-            self.named_variable(name.clone(), false);
+            if is_global {
+                self.emit_byte(OpCode::Nil as u8);
+            } else {
+                self.named_variable(name.clone(), false);
+            }
             self.emit_byte_for_token(OpCode::Inherit as u8, superclass_name);
             self.class_compilers.last_mut().unwrap().has_superclass = true;
         }
 
         let (_, set_op, arg) = self.resolve_variable(&name);
 
-        self.named_variable(name, false);
+        if is_global {
+            self.emit_byte(OpCode::Nil as u8);
+        } else {
+            self.named_variable(name, false);
+        }
         self.consume(TokenKind::LeftBrace, "Expected '{' before class body.");
 
         if let Some(name) = constructor_name {
@@ -596,8 +612,13 @@ impl<'a> Parser<'a> {
         }
         self.consume(TokenKind::RightBrace, "Expected '}' after class body.");
         self.emit_byte(OpCode::DefineClass as u8);
-        self.emit_variable_op(set_op, arg);
-        self.emit_byte(OpCode::Pop as u8);
+        if is_global {
+            self.emit_byte(OpCode::DefineGlobal as u8);
+            self.emit_bytes(name_constant.to_ne_bytes());
+        } else {
+            self.emit_variable_op(set_op, arg);
+            self.emit_byte(OpCode::Pop as u8);
+        }
 
         if self.class_compilers.last().unwrap().has_superclass {
             self.end_scope();
